@@ -8,13 +8,16 @@ Local Open Scope float_scope.
 Definition cdotF (D : nat) (u v : nat -> float * float) : float * float :=
   csumO FO D (fun i => cmul FO (cconj FO (u i)) (v i)).
 Definition check_leakage (D : nat) (Pn : list (list (float * float))) (a x v aj : list (float * float))
-    (sigj nu : float) : bool * float :=
+    (sigj nu : float) (ajs : list (list (float * float))) (sigs : list float) : bool * float :=
   let A := cnth2 Pn in let xx := cnth x in let aa := cnth a in let vv := cnth v in let ajj := cnth aj in
   let res := fold_right fmax 0 (tab D (fun i =>
       sqrt (cabs2 FO (csub FO (csumO FO D (fun j => cmul FO (A i j) (xx j))) (aa i))))) in
   let w := mvdr FO D aa xx in
   let leak := sigj * cabs2 FO (cdotF D w ajj) in
   let v2 := bsum FO D (fun i => cabs2 FO (vv i)) in
+  (* C17_mvdr_total_leakage_bound: all interferers together plus the output noise *)
+  let total := bsum FO (length sigs) (fun j => nth j sigs 0 * cabs2 FO (cdotF D w (cnth (nth j ajs []))))
+               + nu * bsum FO D (fun i => cabs2 FO (w i)) in
   let dist := sqrt (cabs2 FO (csub FO (cdotF D vv aa) (1, 0))) in
   (* contract of the solve oracle: backward stable, residual <= c * eps * |A| * |x| (the noise floor may lie 80 dB below the
      sources, so |x| ~ 1/nu is large); 2^-40 * D * max|A| * max|x| leaves a factor ~1e3 over the unit roundoff *)
@@ -22,4 +25,5 @@ Definition check_leakage (D : nat) (Pn : list (list (float * float))) (a x v aj 
   let sx := fold_right fmax 0 (tab D (fun i => sqrt (cabs2 FO (xx i)))) in
   let rtol := (0x1p-40 * (1 + sA * sx * (1 + 1 + 1 + 1 + 1 + 1 + 1 + 1)))%float in
   (andb (andb (PrimFloat.leb res (fmax 0x1p-30 rtol)) (PrimFloat.leb dist 0x1p-30))
-        (PrimFloat.leb leak (nu * v2 * (1 + 0x1p-20) + 0x1p-1000)), leak - nu * v2).
+        (andb (PrimFloat.leb leak (nu * v2 * (1 + 0x1p-20) + 0x1p-1000))
+              (PrimFloat.leb total (nu * v2 * (1 + 0x1p-20) + 0x1p-1000))), total - nu * v2).
